@@ -110,9 +110,10 @@ def serve():
 
 
 class ColdServer(object):
-    def __init__(self, repo):
+    def __init__(self, repo, hashseed='0'):
+        # (hashseed: the reference interpreter's PYTHONHASHSEED; the checking process itself runs under 0)
         env = dict(os.environ)
-        env['PYTHONHASHSEED'] = '0'
+        env['PYTHONHASHSEED'] = str(hashseed)
         env['PYTHONDONTWRITEBYTECODE'] = '1'
         env['PYTHONPATH'] = HERE + os.pathsep + env.get('PYTHONPATH', '')
         self.p = subprocess.Popen([sys.executable, '-B', '-m', 'vf.cold', repo], stdin=subprocess.PIPE,
